@@ -577,3 +577,156 @@ def py_value(v):
     if isinstance(v, (bytes, bytearray, memoryview)):
         return ('VBytes', [int(x) for x in bytes(v)])
     raise Unsupported(f'py_value: {type(v).__name__}')
+
+
+# ----------------------------------------------------------------------------- extended translator -> Gen/C18XRegistry.v
+XPROTO_CODE = {'l2cap': 0, 'att': 1, 'smp': 2, 'sdp': 3, 'avdtp': 4}
+
+
+def _probe(where, ok):
+    if not ok:
+        raise TranslationError(f'{where}: the custom parser / serializer does not behave like the modelled field codec')
+
+
+def field_xspec(owner, name, spec):
+    """a field spec -> ('XA', aspec) or ('X<kind>',); fail closed: an unknown custom pair, or a known
+    one that fails its behavioural probe, aborts the translation"""
+    from bumble import core, sdp, hci
+    where = f'{owner}.{name}'
+    a = field_aspec(owner, name, spec)
+    if a is not None:
+        return ('XA', a)
+    if isinstance(spec, dict):
+        par, ser = spec.get('parser'), spec.get('serializer')
+        q = _qual(par)
+        mod = getattr(par, '__module__', '')
+        if q == 'L2CAP_Connection_Request.<lambda>':
+            _probe(where, ser(0x1001) == b'\x01\x10' and ser(0x020101) == b'\x01\x01\x02'
+                   and par(b'\xaa\x01\x10\x55', 1) == (3, 0x1001) and par(b'\x01\x01\x02\x07', 0) == (3, 0x020101))
+            return ('XPsm',)
+        if q == 'L2CAP_Credit_Based_Connection_Request.<lambda>':
+            _probe(where, ser([1, 0x203]) == b'\x01\x00\x03\x02' and par(b'\x09\x01\x00\x03\x02\x07', 1) == (6, [1, 0x203]))
+            return ('XU16Lenient',)
+        if q == '<lambda>' and mod == 'bumble.att':
+            ok = ser([1, 0x203]) == b'\x01\x00\x03\x02' and par(b'\x09\x01\x00\x03\x02', 1) == (5, [1, 0x203])
+            try:
+                par(b'\x09\x01\x00\x03', 1)
+                ok = False
+            except Exception:  # noqa: BLE001 - an odd trailing octet must raise
+                pass
+            _probe(where, ok)
+            return ('XU16Strict',)
+        if q == 'ATT_Read_Multiple_Variable_Response.<lambda>':
+            _probe(where, ser([(2, b'ab'), (0, b'')]) == b'\x02\x00ab\x00\x00'
+                   and par(b'\x21\x02\x00ab\x00\x00', 1) == (7, [(2, b'ab'), (0, b'')]))
+            return ('XLvList',)
+        if q == '_parse_service_record_handle_list':
+            _probe(where, ser([1, 0x01020304]) == b'\x00\x02\x00\x00\x00\x01\x01\x02\x03\x04'
+                   and par(b'\x07\x00\x01\x00\x00\x00\x05\x09', 1) == (7, [5]))
+            return ('XHandles32',)
+        if q == '_parse_bytes_preceded_by_length':
+            _probe(where, ser(b'abc') == b'\x00\x03abc' and par(b'\x07\x00\x02xyz', 1) == (5, b'xy'))
+            return ('XLenBytes16',)
+        if q == 'Message.<lambda>' and mod == 'bumble.avdtp':
+            _probe(where, ser(5) == b'\x14' and par(b'\x00\x17', 1) == (2, 5))
+            return ('XSeid',)
+        if q == 'Start_Command.<lambda>':
+            _probe(where, ser([1, 63]) == b'\x04\xfc' and par(b'\x00\x04\xff', 1) == (3, [1, 63]))
+            return ('XSeidList',)
+        if q == 'DelayReport_Command.<lambda>':
+            _probe(where, ser(0x0102) == b'\x01\x02' and par(b'\x00\x01\x02\x09', 1) == (3, 0x0102))
+            return ('XA', ('UIntBE', 2))
+        if q == 'Discover_Response.<lambda>':
+            from bumble import avdtp
+            e = avdtp.EndPointInfo(5, 1, avdtp.MediaType(0), avdtp.StreamEndPointType(1))
+            _probe(where, ser([e]) == b'\x16\x08' and par(b'\x16\x08\x04\x10', 0) == (4, [e, avdtp.EndPointInfo(1, 0, avdtp.MediaType(1), avdtp.StreamEndPointType(0))]))
+            return ('XEndpoints',)
+        if q == 'ServiceCapabilities.<lambda>':
+            from bumble import avdtp
+            caps = [avdtp.ServiceCapabilities(1, b''), avdtp.ServiceCapabilities(4, b'\x01\x02')]
+            _probe(where, ser(caps) == b'\x01\x00\x04\x02\x01\x02' and par(b'\x09\x01\x00\x04\x02\x01\x02', 1) == (7, caps))
+            return ('XCaps',)
+        raise TranslationError(f'{where}: custom parser {q} is not in the catalogue')
+    if callable(spec):
+        f = getattr(spec, '__func__', spec)
+        owner_cls = getattr(spec, '__self__', None)
+        if owner_cls is core.UUID and f is core.UUID.parse_uuid.__func__:
+            return ('XUuidRest',)
+        if owner_cls is core.UUID and f is core.UUID.parse_uuid_2.__func__:
+            return ('XUuid2',)
+        if owner_cls is sdp.DataElement and f is sdp.DataElement.parse_from_bytes.__func__:
+            return ('XSdpElem',)
+        raise TranslationError(f'{where}: callable {_qual(spec)} is not in the catalogue')
+    raise TranslationError(f'{where}: spec {spec!r}')
+
+
+def coq_xspec(x):
+    return f'XA ({coq_aspec(x[1])})' if x[0] == 'XA' else x[0]
+
+
+def translate_x():
+    """every class of the five field-driven registries -> (coq text of Gen/C18XRegistry.v, [(entry, [xspec])])"""
+    from bumble import hci
+    out_classes = []
+    for e in registries():
+        if e.proto not in XPROTO_CODE:
+            continue
+        cls = e.cls
+        for m in ('from_bytes', '__bytes__', 'payload', 'init_from_bytes', 'create'):
+            if m in vars(cls):
+                raise TranslationError(f'{cls.__name__} overrides {m}: it does not use the generic field codec')
+        if list(cls.fields) != list(hci.HCI_Object.fields_from_dataclass(cls)):
+            raise TranslationError(f'{cls.__name__}: fields differ from the dataclass metadata')
+        xs = []
+        for f in cls.fields:
+            if isinstance(f, list):
+                raise TranslationError(f'{cls.__name__}: array group (not expected in these registries)')
+            xs.append(field_xspec(cls.__name__, f[0], f[1]))
+        out_classes.append((e, xs))
+    out = ['(* GENERATED by tools/translate/c18_registries.py from bumble/{l2cap,att,smp,sdp,avdtp}.py on every run. Do not edit. *)',
+           'From Coq Require Import ZArith List String.', 'From BV Require Import Model.SpecCodec Model.CodecsXfields.',
+           'Import ListNotations.', 'Local Open Scope Z_scope.', 'Local Open Scope string_scope.', '',
+           '(* protocol: 0 L2CAP signalling, 1 ATT, 2 SMP, 3 SDP, 4 AVDTP (code = 4 * signal_identifier + message_type) *)',
+           'Definition xclasses : list xcls := [']
+    out.append(';\n'.join(f'  mkx {XPROTO_CODE[e.proto]} {e.code} "{e.cls.__name__}" [' + '; '.join(coq_xspec(x) for x in xs) + ']'
+                          for e, xs in out_classes))
+    out.append('].')
+    counts = {}
+    for e, _ in out_classes:
+        counts[e.proto] = counts.get(e.proto, 0) + 1
+    out.append('(* number of classes registered per protocol when this file was generated *)')
+    out.append('Definition xregistered : list (Z * Z) := [' + '; '.join(f'({XPROTO_CODE[p]}, {n})' for p, n in sorted(counts.items(), key=lambda kv: XPROTO_CODE[kv[0]])) + '].')
+    out.append('')
+    return '\n'.join(out), out_classes
+
+
+def x_value(x, v):
+    """(Coq [value] term, comparable normal form) of a Python field value for an xspec"""
+    k = x[0]
+    if k == 'XA':
+        return coq_value(v), py_value(v)
+
+    def ints(l):
+        return '(VList [' + '; '.join(f'VInt {int(i)}' for i in l) + '])', ('VList', [('VInt', int(i)) for i in l])
+
+    def vb(b):
+        b = bytes(b)
+        return '(VBytes [' + '; '.join(str(i) for i in b) + '])', ('VBytes', [int(i) for i in b])
+    if k in ('XPsm', 'XSeid'):
+        return f'(VInt {int(v)})', ('VInt', int(v))
+    if k in ('XU16Strict', 'XU16Lenient', 'XHandles32', 'XSeidList'):
+        return ints(v)
+    if k == 'XLvList':
+        return ('(VList [' + '; '.join(f'VList [VInt {int(l)}; {vb(b)[0]}]' for l, b in v) + '])',
+                ('VList', [('VList', [('VInt', int(l)), vb(b)[1]]) for l, b in v]))
+    if k in ('XLenBytes16', 'XUuid2', 'XUuidRest', 'XSdpElem'):
+        return vb(bytes(v))
+    if k == 'XEndpoints':
+        rows = [[int(e.seid), int(e.in_use), int(e.media_type), int(e.tsep)] for e in v]
+        return ('(VList [' + '; '.join('VList [' + '; '.join(f'VInt {i}' for i in r) + ']' for r in rows) + '])',
+                ('VList', [('VList', [('VInt', i) for i in r]) for r in rows]))
+    if k == 'XCaps':
+        rows = [(int(c.service_category), bytes(c.service_capabilities_bytes)) for c in v]
+        return ('(VList [' + '; '.join(f'VList [VInt {c}; {vb(b)[0]}]' for c, b in rows) + '])',
+                ('VList', [('VList', [('VInt', c), vb(b)[1]]) for c, b in rows]))
+    raise Unsupported(f'x_value: {k}')
